@@ -1,7 +1,7 @@
 (* ===== C02 : every model-matrix column holds exactly the product its name denotes ===== *)
 From Coq Require Import List NArith ZArith QArith Qcanon Bool Arith.
 Import ListNotations.
-Require Import Mat MatLaws.
+Require Import Mat MatLaws KronSolo.
 Open Scope N_scope.
 
 (* The columns of a term are exactly: one column per choice of one encoded column from each factor; its name is the names
@@ -45,6 +45,20 @@ Example C02_example :
   kron [A; a] = [([65;91;120;93;58;97], [Some (Q2Qc 2); Some (Q2Qc 0)]); ([65;91;121;93;58;97], [Some (Q2Qc 0); Some (Q2Qc 3)])].
 Proof. vm_compute. reflexivity. Qed.
 
+(* the single-column fast path of _get_columns_for_term: a factor with ONE column, wherever it stands in the term, multiplies every column of the
+   product of the other factors and leaves their order alone -- so pre-multiplying all such factors and expanding them last gives the columns
+   of the naive row-wise Kronecker product (cell multiplication being commutative and associative) *)
+Theorem C02_single_column_factor_pulls_out : forall s pre post, pre ++ post <> [] ->
+  map snd (kron (pre ++ [s] :: post)) = map (fun c => vmul c (snd s)) (map snd (kron (pre ++ post))).
+Proof. exact kron_pull_solo. Qed.
+Theorem C02_cell_product_commutes : forall a b, vmul a b = vmul b a.
+Proof. exact vmul_comm. Qed.
+Theorem C02_cell_product_associates : forall a b c, vmul (vmul a b) c = vmul a (vmul b c).
+Proof. exact vmul_assoc. Qed.
+
+Print Assumptions C02_single_column_factor_pulls_out.
+Print Assumptions C02_cell_product_commutes.
+Print Assumptions C02_cell_product_associates.
 Print Assumptions C02_columns_are_products.
 Print Assumptions C02_kronecker_enumeration.
 Print Assumptions C02_kronecker_width.
